@@ -72,7 +72,10 @@ LEAF = ("mqtt::packet::mqtt_string::MqttString", "mqtt::packet::mqtt_binary::Mqt
 def _inline(ex, callee, info):
     """Leaf byte containers are inlined so that nested(to_continuous_buffer(x)) and io(as_bytes(x)) meet."""
     s = callee.get("impl_self", "").split("<")[0]
-    return s in LEAF and callee.get("name") in ("to_continuous_buffer", "to_buffers", "as_bytes")
+    if s in LEAF and callee.get("name") in ("to_continuous_buffer", "to_buffers", "as_bytes"):
+        return True
+    # private helpers a serialiser delegates to (e.g. a shared "append the optional tail" routine writing through `&mut Vec`)
+    return explore.small_private_helper(callee) or callee.get("kind") == "Closure"
 
 
 def strip_sites(t):
